@@ -305,6 +305,20 @@ class MapView:
     def id(self):
         return Z.Val.id(self.t)
 
+    @property
+    def keys(self):
+        """the key sequence (insertion order)"""
+        return SeqView(self._spec, self.t, TSeq(self.ty.key), self._heap)
+
+    def wf(self):
+        """well-formed map: the key sequence lists exactly the present keys, each once"""
+        s = self._spec
+        ks = self.keys
+        k = z3.Const("wfk", Z.Val)
+        listed = lambda key: s.exists("wq", lambda q: z3.And(0 <= q, q < ks.len, ks.item_term(q) == key))
+        return z3.And(ks.len >= 0, s.forall("wj", lambda j: z3.Implies(z3.And(0 <= j, j < ks.len), self.has(ks.item_term(j)))),
+                      ks.distinct(), z3.ForAll([k], z3.Implies(self.has(k), listed(k))))
+
     def has(self, key):
         return z3.Select(z3.Select(self._spec.ctx.rd(self._heap, "$mhas"), self.id), _term(key))
 
@@ -508,6 +522,7 @@ class Contract:
         self.never_returns = ns.get("never_returns", False)
         self.new_object = ns.get("new_object")
         self.emits_after = ns.get("emits_after")  # (c, ctx, outcome, value, **views): events appended once the outcome is known
+        self.exact_raises = ns.get("exact_raises", False)  # a library raises exactly the named class, not an unknown subclass
         self.transparent = ns.get("transparent", False)  # callers execute the real body (inlined) instead of using the contract
         self.delegate = ns.get("delegate")  # (I, **bound) -> value: the abstract callee's outcome IS the outcome of this call (pass-through)
         self.is_async = ns.get("is_async", False)  # abstract coroutine function: the call returns an awaitable
